@@ -11,6 +11,7 @@ CHECK = {
         {"fn": P + "vC38_lww_anyclock", "cases": {"slots": [6]}},
         {"fn": P + "vC38_mvregister", "cases": {"slots": [6]}},
         {"fn": P + "vC38_orset", "cases": {"slots": [6]}},
+        {"fn": P + "vC38_ormap", "cases": {"slots": [6]}},
     ],
     "opts": {"unwind": 10, "feas_from_iter": 100, "map_range": "per_entry", "map_dedup": True},
     "explanation": "",
